@@ -22,7 +22,27 @@ def features(rng):
                 evenodd=rng.random() < 0.3, max_depth=4)
 
 
-P = RenderProp(features, "stack", n_quick=110, n_thorough=700)
+INVERSE_PAIRS = [("scale(-1,1)", ' transform="scale(-1,1)"'), ("translate(20 0)", ' transform="translate(-20 0)"'), ("translate(20,5)", ' x="-20" y="-5"'),
+                 ("rotate(90)", ' transform="rotate(-90)"'), ("scale(2)", ' transform="scale(0.5)"'), ("translate(-7.5 3)", ' x="7.5" y="-3"'),
+                 ("matrix(1 0 0 -1 0 60)", ' transform="matrix(1 0 0 -1 0 60)"')]
+
+
+def special(rng):
+    """instances whose transform undoes the target's own: the product is the identity and nothing may be left behind"""
+    if rng.random() > 0.12:
+        return None
+    import docgen
+    t, u = rng.choice(INVERSE_PAIRS)
+    shape = rng.choice(['<rect id="t" x="10" y="12" width="30" height="16" fill="red" transform="%s"/>',
+                        '<path id="t" d="M12,10 L44,14 L20,40 Z" fill="red" transform="%s"/>',
+                        '<g id="t" transform="%s"><circle cx="30" cy="25" r="12" fill="red"/><rect x="5" y="5" width="9" height="9"/></g>']) % t
+    rest = docgen.document(rng, docgen.Features(use=False, groups=True, transforms=True, opacity=False, styles=False, max_depth=2))
+    body = rest[rest.index(">") + 1:rest.rindex("</svg>")]
+    return ('<svg xmlns="http://www.w3.org/2000/svg" xmlns:xlink="http://www.w3.org/1999/xlink" viewBox="0 0 100 100">%s<use xlink:href="#t"%s fill="blue"/>%s</svg>'
+            % (shape, u, body))
+
+
+P = RenderProp(features, "stack", n_quick=110, n_thorough=700, special=special)
 correspondence = P.correspondence
 search = P.search
 replay = P.replay
